@@ -307,6 +307,42 @@ func (m *dsim) backend(kind string, files map[string][]byte) (storage.ReadBucket
 			panic(err)
 		}
 		return b, dir
+	case "oslink":
+		// a directory read with symbolic links followed (what the command line does): every top-level
+		// directory of the module is a link to a link to the real directory elsewhere, and top-level
+		// files are links to links to the real file
+		dir := filepath.Join(m.env.Scratch, fmt.Sprintf("oslink%d", m.n))
+		store := filepath.Join(m.env.Scratch, fmt.Sprintf("oslink%d-store", m.n))
+		_ = os.MkdirAll(dir, 0o755)
+		_ = os.MkdirAll(store, 0o755)
+		linked := map[string]bool{}
+		for p, c := range files {
+			top := strings.SplitN(p, "/", 2)[0]
+			real := filepath.Join(store, "real-"+top)
+			if top != p {
+				real = filepath.Join(store, "real-"+top, filepath.FromSlash(strings.SplitN(p, "/", 2)[1]))
+			}
+			_ = os.MkdirAll(filepath.Dir(real), 0o755)
+			if err := os.WriteFile(real, c, 0o644); err != nil {
+				panic(err)
+			}
+			if !linked[top] {
+				linked[top] = true
+				// dir/<top> -> store/current-<top> -> real-<top>
+				if err := os.Symlink("real-"+top, filepath.Join(store, "current-"+top)); err != nil {
+					panic(err)
+				}
+				if err := os.Symlink(filepath.Join(store, "current-"+top), filepath.Join(dir, top)); err != nil {
+					panic(err)
+				}
+			}
+		}
+		b, err := storageos.NewProvider(storageos.ProviderWithSymlinks()).NewReadWriteBucket(dir, storageos.ReadWriteBucketWithSymlinksIfSupported())
+		if err != nil {
+			panic(err)
+		}
+		m.s.Probe("chained-symlinks")
+		return b, dir
 	case "memsub", "ossub":
 		// the module is a sub directory "mod" of a bigger bucket; siblings whose names extend "mod"
 		// with a character that sorts below '/' must not disturb the walk
@@ -526,11 +562,11 @@ func Run(tp *tape.Tape, env *engine.Env) *engine.Outcome {
 	}
 	s.Event("case mods=%d files=%v", len(m.mods), simfs.SortedKeys(m.mods[main].files))
 
-	backends := []string{"mem", "os", "tar", "zip", "memsub", "ossub"}
+	backends := []string{"mem", "os", "tar", "zip", "memsub", "ossub", "oslink"}
 	nconf := 3 + tp.Draw("nconf", 4)
 	kinds := map[string]struct{}{}
 	for k := 0; k < nconf; k++ {
-		c := cfg{backend: backends[(k+tp.Draw("backend", 6))%6], permute: tp.Draw("permute", 2) == 1, named: tp.Draw("named", 2) == 1,
+		c := cfg{backend: backends[(k+tp.Draw("backend", 7))%7], permute: tp.Draw("permute", 2) == 1, named: tp.Draw("named", 2) == 1,
 			targeted: tp.Draw("targeted", 2) == 1, permMods: tp.Draw("permmods", 2) == 1}
 		m.faults = tp.Draw("faulty", 4) == 3
 		if m.faults {
